@@ -802,7 +802,14 @@ var spec = &hx.Spec[Case]{
 	Run: run,
 }
 
-func TestMain(m *testing.M) { hx.Main(m) }
+func TestMain(m *testing.M) {
+	for _, kind := range storeOrder { // every registered store kind must be populated
+		if req := "store:" + kind; !strings.Contains(strings.Join(spec.Required, " ")+" ", req+" ") {
+			spec.Required = append(spec.Required, req)
+		}
+	}
+	hx.Main(m)
+}
 
 func TestRegress(t *testing.T) { hx.Regress(t, spec) }
 func TestKnown(t *testing.T)   { hx.Known(t, spec) }
@@ -814,7 +821,16 @@ func TestReplay(t *testing.T)  { hx.Replay(t, spec) }
 // (100 chunks) / all element boundaries +-1 (2000 chunks); (3) every store kind x both
 // digests x 0..3 chunks.
 func TestEnum(t *testing.T) {
-	if hx.Shard() != 0 {
+	t.Run("small-tables", enumSmallTables)
+	t.Run("large-tables", enumLargeTables)
+	t.Run("store-kinds", enumStoreKinds)
+}
+
+// mine spreads the deterministic parts over the shards of a run (all on shard 0 when there is one).
+func mine(part int) bool { return hx.Shard() == part%hx.Shards() }
+
+func enumSmallTables(t *testing.T) {
+	if !mine(0) {
 		t.Skip()
 	}
 	alphabet := hx.Pick([]uint64{1, 3}, []uint64{1, 2, 3})
@@ -852,7 +868,12 @@ func TestEnum(t *testing.T) {
 	}
 	hx.Note("enumerated_small_tables", tables)
 	hx.Exhaustive(fmt.Sprintf("all tables with <= 6 chunks of sizes %v x both digests x max in %v: every strict prefix, every single offset decreased to every value 1..predecessor-1, every single chunk enlarged to max+1/max+2, digest bit flipped", alphabet, maxes))
+}
 
+func enumLargeTables(t *testing.T) {
+	if !mine(1) {
+		t.Skip()
+	}
 	for _, sha := range []bool{false, true} {
 		for _, n := range []int{100, maxChunks} {
 			for _, mx := range []uint64{64 << 10, maxU64} {
@@ -868,7 +889,12 @@ func TestEnum(t *testing.T) {
 		}
 	}
 	hx.Exhaustive("truncation of a 100-chunk table at every length and of a 2000-chunk table at every element boundary +-1, both digests")
+}
 
+func enumStoreKinds(t *testing.T) {
+	if !mine(2) {
+		t.Skip()
+	}
 	for _, kind := range storeOrder {
 		for _, sha := range []bool{false, true} {
 			for n := 0; n <= 3; n++ {
@@ -900,7 +926,7 @@ func fixtureFiles() []string {
 
 // TestFixtures: every fixture index re-encodes byte-identically through every store kind.
 func TestFixtures(t *testing.T) {
-	if hx.Shard() != 0 {
+	if !mine(3) {
 		t.Skip()
 	}
 	files := fixtureFiles()
